@@ -15,7 +15,7 @@ CONES = {
     "C16": ("ops", "neigh", "tour", "trans"), "C06": ("ops", "neigh", "tour", "trans"),
     "C08": ("ops", "neigh"), "C11": ("ops", "tour", "trans"),
     "C09": ("tour", "trans"), "C10": ("tour", "trans"), "C13": ("tour",),
-    "C14": ("f32",),
+    "C14": ("f32", "slots"),
 }
 # SlotDist.v / F32.v are in the cone of the theorems cited for the start solution (C02 track clause, C06 no panic, C14)
 for _p in ("C02", "C06"):
